@@ -78,7 +78,7 @@ type Rewriter struct {
 
 // NewRewriter builds a rewriter for a pattern.
 func NewRewriter(p *Pattern, greedy bool) *Rewriter {
-	return &Rewriter{P: p, M: &Matcher{Meta: p.Meta, Greedy: greedy}}
+	return &Rewriter{P: p, M: &Matcher{Meta: p.Meta, Greedy: greedy, Limit: StepLimit}}
 }
 
 func (r *Rewriter) instantiate(plus *N, env *Env) *N {
@@ -386,3 +386,7 @@ func hasAltKind(n *N, kind string) bool {
 	}
 	return false
 }
+
+// GaveUp reports whether the reference search hit its work bound: its result is then
+// meaningless and the case has to be counted as inconclusive.
+func (r *Rewriter) GaveUp() bool { return r.M.Limit > 0 && r.M.Steps > r.M.Limit }
